@@ -665,11 +665,46 @@ def r4(ctx):
         m = None
         for pat in (('bbeq', ('bb0',), V('att')), ('bbeq', V('att'), ('bb0',))):
             m = m or match(pat, r)
+        terms = None
         if m is None:
-            ctx.violation(R, key + ':result', 'legal_king_move does not return `attackers == EMPTY`: ' + sh(r, 200), w)
+            # early-return form: `if rook_attackers != EMPTY { return false } .. ; rest == EMPTY`.  (A | B) == EMPTY iff both are
+            # empty, so collect, on every path that can answer `true`, the sets asserted empty on the way plus the set compared at
+            # the end; every such path must cover the same union, and a `false` must come from a non-empty member of it.
+            flat = lambda t: set(t[2]) if (t[0] == 'bb' and t[1] == '|') else {t}
+            unions, bad_ = [], []
+            for conds, leaf in paths_deep(r):
+                emp, non, foreign = set(), set(), []
+                for c, v, allv in conds:
+                    if c[0] in ('bbeq', 'bbne') and ('bb0',) in c[1:]:
+                        t_ = [y for y in c[1:] if y != ('bb0',)][0]
+                        is_empty = (v != 0) == (c[0] == 'bbeq')
+                        (emp if is_empty else non).update(flat(t_))
+                    else:
+                        foreign.append(c)
+                if foreign:
+                    bad_.append('decides on %s' % sh(foreign[0], 100))
+                    continue
+                if leaf[0] in ('bbeq', 'bbne') and ('bb0',) in leaf[1:]:
+                    t_ = [y for y in leaf[1:] if y != ('bb0',)][0]
+                    if leaf[0] == 'bbeq':
+                        unions.append(frozenset(emp | flat(t_)))
+                    else:
+                        bad_.append('returns `x != EMPTY`')
+                elif leaf == ('int', 1, 'bool'):
+                    unions.append(frozenset(emp))
+                elif leaf == ('int', 0, 'bool'):
+                    if not non:
+                        bad_.append('returns false without any attacker found')
+                else:
+                    bad_.append('returns %s' % sh(leaf, 80))
+            if bad_ or not unions or len(set(unions)) != 1:
+                ctx.violation(R, key + ':result', 'legal_king_move is not "no attacker set is non-empty": %s' % (bad_[:2] or 'paths to `true` cover different attacker sets'), w)
+            else:
+                terms = set(unions[0])
         else:
             att = m['att']
             terms = set(att[2]) if att[0] == 'bb' and att[1] == '|' else {att}
+        if terms is not None:
             occ = occs[0]
             want = {
                 'rook/queen': mk('&', [C('magic::get_rook_moves', D, occ), rooks]),
